@@ -1,5 +1,7 @@
 import ObiVerif.Model.Grep
 import ObiVerif.Model.Annotate
+import ObiVerif.Model.Distribute
+import ObiVerif.Model.Getopt
 import ObiVerif.Driver.Util
 /-!
 line protocol for C16
@@ -9,7 +11,14 @@ grep  <grep options> | <records> | <oracle table>      -> keep=<one of 1 0 F per
 annot <grep options> <annot options> | <records> | <oracle table>
                                                         -> one of out:<record> absent panic fatal per record
 class <hex key1> <hex key2> <hex na> | <records>        -> <hex v1>,<hex v2> per record
+grepio  <grep options> bs= w= [nosd] [lay=] [perm=] | <records> | <table>   -> kept=… [disc=…]
+annotio <options> bs= w= [lay=] [perm=] | <records> | <table>               -> the output records, in order
+distio  <dist options> bs= w= [lay=] [perm=] | <records>                     -> <file>=<ids> … (sorted by file)
+argv <command> <hex argv words> | -                                          -> error:<class> or the option state
 ```
+`lay` (sizes of the input batches) and `perm` (their arrival order) only have to be consistent with
+the number of records: the result does not depend on them (C03 + `grep_filter`, `annotate_stream`,
+`distribute_*`).
 records: `<rec> ; <rec> ; …`, a record being `<hex id>,<hex seq>,<attrs>` optionally followed by
 ` + <rec>` (its mate); attrs: `-` or `<hex key>=<val>;…`, val: `s<hex>` `i<int>` `b0` `b1`
 `f<trunc>~<hex shown>`.  The oracle table gives the verdicts of the real libraries (`regexp`, gval,
@@ -120,12 +129,51 @@ def grepOracles (T : Tab) : Grep.Oracles where
   apat p e both indel r :=
     T.bool ("ap:" ++ hexS p ++ ":" ++ toString e ++ (if both then "b" else "f") ++ (if indel then "i" else "n") ++ ":" ++ showRec r)
 
-def annotOracles (T : Tab) : Annotate.Oracles where
+def nat2? (s : String) : Option (Nat × Nat) :=
+  match s.splitOn "," with
+  | [a, b] => do
+    let a ← a.toNat?
+    let b ← b.toNat?
+    pure (a, b)
+  | _ => none
+
+def annotOracles (T : Tab) (ahoPats : List String := []) : Annotate.Oracles where
   evalExpr e r :=
     match T.t.lookup ("ev:" ++ hexS e ++ ":" ++ showRec r) with
     | some "E" => none
     | some v => (parseVal v).orElse fun _ => if T.dflt then some (.str "?") else none
     | none => if T.dflt then some (.str "?") else none
+  taxonAtRank rank r :=
+    match T.t.lookup ("tar:" ++ hexS rank ++ ":" ++ showRec r) with
+    | some "N" => none
+    | some "-" => some none
+    | some v =>
+      match v.splitOn "," with
+      | [a, b] =>
+        match a.toInt?, unhexS b with
+        | some t, some name => some (some (t, name))
+        | _, _ => if T.dflt then some none else none
+      | _ => if T.dflt then some none else none
+    | none => if T.dflt then some none else none
+  taxPath r := (T.t.lookup ("tpa:" ++ showRec r)).bind fun v => if v = "F" then none else unhexS v
+  taxRank r := (T.t.lookup ("trk:" ++ showRec r)).bind fun v => if v = "F" then none else unhexS v
+  sciName r := (T.t.lookup ("tsc:" ++ showRec r)).bind fun v => if v = "F" then none else unhexS v
+  aho r :=
+    match (T.t.lookup ("aho:" ++ ",".intercalate (ahoPats.map hexS) ++ ":" ++ showRec r)).bind nat2? with
+    | some x => x
+    | none => if T.dflt then (1, 0) else (0, 0)
+  bestMatch pat e indel direct r :=
+    match T.t.lookup ("bm:" ++ hexS pat ++ ":" ++ toString e ++ (if indel then "i" else "n") ++
+        (if direct then "d" else "c") ++ ":" ++ showRec r) with
+    | some "-" => none
+    | some v =>
+      match v.splitOn "," with
+      | [a, b, c] =>
+        match a.toNat?, b.toNat?, c.toInt? with
+        | some a, some b, some c => some ⟨a, b, c⟩
+        | _, _, _ => none
+      | _ => none
+    | none => if T.dflt then some ⟨0, 1, 0⟩ else none
 
 /-- Go map assignment on an ordered association list kept sorted by key -/
 def mapPut (k v : String) : List (String × String) → List (String × String)
@@ -139,6 +187,13 @@ structure Opts where
   mode : String := "forward"
   pmSet : Bool := false
   hasAnnot : Bool := false
+  hasPatName : Bool := false
+  hasCut : Bool := false
+  nosd : Bool := false
+  ahoPats : List String := []
+  bs : Nat := 3
+  lay : Option (List Nat) := none
+  perm : Option (List Nat) := none
 
 /-- a string that can be one argv word after an option -/
 def argOK (s : String) : Bool :=
@@ -165,10 +220,33 @@ def mapKV (x : String) : Option (String × String) :=
 
 def markA (o : Opts) : Opts := { o with hasAnnot := true }
 
+/-- `a.b.c`: canonical naturals ≤ 1000, 1 to 64 of them -/
+def natList (x : String) : Option (List Nat) :=
+  ((x.splitOn ".").mapM fun w => (canonInt w).bind fun n => if 0 ≤ n && n ≤ 1000 then some n.toNat else none).bind
+    fun l => if 1 ≤ l.length && l.length ≤ 64 then some l else none
+
+/-- number of input batches of a pipeline case -/
+def nBatches (bs : Nat) (lay : Option (List Nat)) (n : Nat) : Nat :=
+  match lay with
+  | some l => l.length
+  | none => (n + bs - 1) / bs
+
+def layPermOK (bs : Nat) (lay perm : Option (List Nat)) (n : Nat) : Bool :=
+  (match lay with
+   | some l => l.sum == n
+   | none => true) &&
+  (match perm with
+   | some p => let k := nBatches bs lay n
+               p.length == k && (List.range k).all fun i => p.contains i
+   | none => true)
+
 def parseOpt (o : Opts) (w : String) : Option Opts :=
   match w.splitOn "=" with
   | ["long"] => some o
-  | ["bs", x] => (canonInt x).bind fun n => if 1 ≤ n && n ≤ 50 then some o else none
+  | ["nosd"] => some { o with nosd := true }
+  | ["lay", x] => if o.lay.isSome then none else (natList x).map fun l => { o with lay := some l }
+  | ["perm", x] => if o.perm.isSome then none else (natList x).map fun l => { o with perm := some l }
+  | ["bs", x] => (canonInt x).bind fun n => if 1 ≤ n && n ≤ 50 then some { o with bs := n.toNat } else none
   | ["w", x] => (canonInt x).bind fun n => if 1 ≤ n && n ≤ 8 then some o else none
   | ["v"] => some { o with g := { o.g with invert := true } }
   | ["indel"] => some { o with g := { o.g with patternIndel := true } }
@@ -199,6 +277,21 @@ def parseOpt (o : Opts) (w : String) : Option Opts :=
             fun ids => { o with g := { o.g with idList := some ids } }
   | ["pm", x] => (argS x).bind fun m =>
       if m.any (fun c => c = ':' || c = ',' || c = ';' || c = '|') then none else some { o with mode := m, pmSet := true }
+  | ["path"] => some (markA { o with a := { o.a with taxonomicPath := true } })
+  | ["trank"] => some (markA { o with a := { o.a with withRank := true } })
+  | ["sci"] => some (markA { o with a := { o.a with withScientificName := true } })
+  | ["atrank", x] => (argS x).map fun s => markA { o with a := { o.a with taxonAtRank := o.a.taxonAtRank ++ [s] } }
+  | ["pat", x] => (argS x).bind fun s =>
+      if o.a.pattern = "" && s.length ≤ 20 && s.all (fun c => c.isLower || c = '_') then
+        some (markA { o with a := { o.a with pattern := s } }) else none
+  | ["patname", x] => (argS x).bind fun s =>
+      if !o.hasPatName && s.all (fun c => c.isLower || c = '_') then
+        some (markA { o with hasPatName := true, a := { o.a with patternName := s } }) else none
+  | ["aho", x] =>
+      if o.a.ahoCorasick then none else
+      ((x.splitOn ",").mapM fun h => (unhexS h).bind fun q =>
+          if q ≠ "" && q.all Char.isLower then some q else none).map
+        fun l => markA { o with ahoPats := l, a := { o.a with ahoCorasick := true } }
   | ["setid", x] => (argS x).map fun s => markA { o with a := { o.a with setId := s } }
   | ["del", x] => (argS x).map fun s => markA { o with a := { o.a with toBeDeleted := o.a.toBeDeleted ++ [s] } }
   | ["keep", x] => (argS x).map fun s => markA { o with a := { o.a with keepOnly := o.a.keepOnly ++ [s] } }
@@ -210,11 +303,18 @@ def parseOpt (o : Opts) (w : String) : Option Opts :=
         let a ← canonInt a
         let b ← canonInt b
         if a > 1000000 || a < -1000000 || b > 1000000 || b < -1000000 then none
-        else pure (markA { o with a := { o.a with cut := (a, b) } })
+        else pure (markA { o with hasCut := true, a := { o.a with cut := (a, b) } })
       | _ => none
   | _ => none
 
-def parseOpts (ws : List String) : Option Opts := ws.foldlM parseOpt {}
+/-- `--pattern-error` / `--allows-indels` are options of obigrep that `MatchPatternWorker` reads too -/
+def parseOpts (ws : List String) : Option Opts :=
+  (ws.foldlM parseOpt {}).map fun o =>
+    { o with a := { o.a with patternError := o.g.patternError, patternIndel := o.g.patternIndel } }
+
+/-- the `--pattern` cases run on non-empty `acgt` sequences -/
+def patSeqOK (o : Opts) (recs : List (Rec × Option Rec)) : Bool :=
+  o.a.pattern = "" || recs.all fun rm => !rm.1.seq.isEmpty && rm.1.seq.all fun b => b = 97 || b = 99 || b = 103 || b = 116
 
 def runGrep (o : Opts) (recs : List (Rec × Option Rec)) (T : Tab) : String :=
   let p := cliPredicate (grepOracles T) o.g
@@ -235,8 +335,9 @@ def runGrep (o : Opts) (recs : List (Rec × Option Rec)) (T : Tab) : String :=
       | none => "F")
 
 def runAnnot (o : Opts) (recs : List (Rec × Option Rec)) (T : Tab) : String :=
+  if !patSeqOK o recs then "bad-op" else
   joinSp (recs.map fun (r, _) =>
-    match pipeline (grepOracles T) o.g (annotOracles T) o.a r with
+    match pipeline (grepOracles T) o.g (annotOracles T o.ahoPats) o.a r with
     | .out r => "out:" ++ showRec r
     | .absent => "absent"
     | .panic => "panic"
@@ -253,6 +354,7 @@ def runGrepIO (o : Opts) (recs : List (Rec × Option Rec)) (T : Tab) : String :=
   let O := grepOracles T
   let all := recs.flatMap fun (r, m) => r :: m.toList
   if !(all.all fun r => idOK r.id && seqOK r.seq) then "bad-op"
+  else if !layPermOK o.bs o.lay o.perm recs.length then "bad-op"
   else if all.any (fun r => o.g.predicates.any fun e => (O.evalBool e r).isNone) then "bad-op"
   else
     match parseMode o.mode with
@@ -265,14 +367,183 @@ def runGrepIO (o : Opts) (recs : List (Rec × Option Rec)) (T : Tab) : String :=
       let disc := recs.filter fun rm => verdict rm == some false
       let mates := fun (l : List (Rec × Option Rec)) => l.filterMap fun rm => rm.2.map (·.id)
       if o.paired then
-        s!"kept1={showIds (kept.map (·.1.id))} kept2={showIds (mates kept)} disc1={showIds (disc.map (·.1.id))} disc2={showIds (mates disc)}"
+        s!"kept1={showIds (kept.map (·.1.id))} kept2={showIds (mates kept)}" ++
+          (if o.nosd then "" else s!" disc1={showIds (disc.map (·.1.id))} disc2={showIds (mates disc)}")
       else
-        s!"kept={showIds (kept.map (·.1.id))} disc={showIds (disc.map (·.1.id))}"
+        s!"kept={showIds (kept.map (·.1.id))}" ++ (if o.nosd then "" else s!" disc={showIds (disc.map (·.1.id))}")
+
+/-- obiannotate end to end: the stream of output records, in input order -/
+def runAnnotIO (o : Opts) (recs : List (Rec × Option Rec)) (T : Tab) : String :=
+  if !(recs.all fun rm => idOK rm.1.id && seqOK rm.1.seq) then "bad-op"
+  else if !layPermOK o.bs o.lay o.perm recs.length || !patSeqOK o recs then "bad-op"
+  else
+    let outs := recs.map fun rm => pipeline (grepOracles T) o.g (annotOracles T o.ahoPats) o.a rm.1
+    if outs.any (fun x => x == .panic || x == .fatal) then "bad-op"
+    else
+      let l := outs.filterMap fun x => match x with
+        | .out r => some ("out:" ++ showRec r)
+        | _ => none
+      if l.isEmpty then "-" else joinSp l
+
+/-! ### obidistribute -/
+
+structure DOpts where
+  d : Distribute.DistOpts := {}
+  hasPat : Bool := false
+  bs : Nat := 3
+  lay : Option (List Nat) := none
+  perm : Option (List Nat) := none
+  seen : List String := []
+
+def patOK (s : String) : Bool := s.all fun c => c.isAlphanum || c = '_' || c = '.'
+
+def parseDOpt (o : DOpts) (w : String) : Option DOpts :=
+  let name := (w.splitOn "=").head!
+  if o.seen.contains name then none else
+  let o := { o with seen := name :: o.seen }
+  match w.splitOn "=" with
+  | ["z"] => some { o with d := { o.d with compressed := true } }
+  | ["long"] => some o
+  | ["cl", x] => (argS x).map fun s => { o with d := { o.d with classifierTag := s } }
+  | ["dir", x] => (argS x).map fun s => { o with d := { o.d with directoryTag := s } }
+  | ["na", x] => (argS x).map fun s => { o with d := { o.d with naValue := s } }
+  | ["n", x] => (canonInt x).bind fun n => if 1 ≤ n && n ≤ 64 then some { o with d := { o.d with batchCount := n } } else none
+  | ["H", x] => (canonInt x).bind fun n => if 1 ≤ n && n ≤ 64 then some { o with d := { o.d with hashSize := n } } else none
+  | ["bs", x] => (canonInt x).bind fun n => if 1 ≤ n && n ≤ 50 then some { o with bs := n.toNat } else none
+  | ["w", x] => (canonInt x).bind fun n => if 1 ≤ n && n ≤ 8 then some o else none
+  | ["lay", x] => (natList x).map fun l => { o with lay := some l }
+  | ["perm", x] => (natList x).map fun l => { o with perm := some l }
+  | ["pat", x] =>
+    match x.splitOn ":" with
+    | [a, b] => do
+      let a ← unhexS a
+      let b ← unhexS b
+      if patOK a && patOK b && a ≠ "" && a.front ≠ '.' then
+        pure { o with hasPat := true, d := { o.d with patPre := a, patSuf := b } }
+      else none
+    | _ => none
+  | _ => none
+
+/-- sorted insertion by file name (presentation only) -/
+def insFile (f : String × List String) : List (String × List String) → List (String × List String)
+  | [] => [f]
+  | x :: xs => if f.1 ≤ x.1 then f :: x :: xs else x :: insFile f xs
+
+/-! ### option state after parsing (tie with the real parser: `argv` cases) -/
+
+def b01 (b : Bool) : String := if b then "1" else "0"
+def lsS (l : List String) : String := "[" ++ ",".intercalate (l.map hexS) ++ "]"
+def mpS (m : List (String × String)) : String := "{" ++ ",".intercalate (m.map fun kv => hexS kv.1 ++ ":" ++ hexS kv.2) ++ "}"
+
+def needsTax (o : Opts) : Bool :=
+  !o.g.belongTaxa.isEmpty || !o.g.notBelongTaxa.isEmpty || !o.g.requiredRanks.isEmpty ||
+  !o.a.taxonAtRank.isEmpty || o.a.taxonomicPath || o.a.withRank || o.a.withScientificName
+
+/-- the option globals of `obigrep/options.go`, as `obigrep.VerifOptionState` prints them -/
+def grepState (o : Opts) : String :=
+  let g := o.g
+  joinSp [
+    "restrict-to-taxon=" ++ lsS g.belongTaxa,
+    "ignore-taxon=[" ++ ",".intercalate (g.notBelongTaxa.map toString) ++ "]",
+    "require-rank=" ++ lsS g.requiredRanks,
+    s!"min-length={g.minLength}", s!"max-length={g.maxLength}", s!"min-count={g.minCount}", s!"max-count={g.maxCount}",
+    "sequence=" ++ lsS g.seqPatterns, "definition=" ++ lsS g.defPatterns, "identifier=" ++ lsS g.idPatterns,
+    "predicate=" ++ lsS g.predicates,
+    "id-list=" ++ (if g.idList.isSome then "set" else "-"),
+    "taxdump=" ++ (if needsTax o then "set" else "-"),
+    "has-attribute=" ++ lsS g.requiredAttrs,
+    "attribute=" ++ mpS g.attrPatterns,
+    "inverse-match=" ++ b01 g.invert,
+    "save-discarded=-",
+    "paired-mode=" ++ hexS o.mode,
+    "approx-pattern=" ++ lsS g.approxPatterns,
+    s!"pattern-error={g.patternError}",
+    "allows-indels=" ++ b01 g.patternIndel,
+    "only-forward=" ++ b01 g.patternOnlyForward]
+
+def cutS (c : Int × Int) (given : Bool) : String := if given then hexS s!"{c.1}:{c.2}" else "-"
+
+/-- the option globals of `obiannotate/options.go`, as `obiannotate.VerifOptionState` prints them -/
+def annotState (o : Opts) : String :=
+  let a := o.a
+  joinSp [
+    "clear=" ++ b01 a.clearAll, "length=" ++ b01 a.setSeqLength,
+    "aho-corasick=" ++ (if a.ahoCorasick then "set" else "-"),
+    "pattern=" ++ hexS a.pattern, "pattern-name=" ++ hexS a.patternName,
+    "add-lca-in=-",
+    "set-identifier=" ++ hexS a.setId,
+    "cut=" ++ cutS a.cut o.hasCut,
+    "set-tag=" ++ mpS a.evalAttribute, "rename-tag=" ++ mpS a.toBeRenamed,
+    "delete-tag=" ++ lsS a.toBeDeleted, "with-taxon-at-rank=" ++ lsS a.taxonAtRank,
+    "taxonomic-path=" ++ b01 a.taxonomicPath, "taxonomic-rank=" ++ b01 a.withRank,
+    "scientific-name=" ++ b01 a.withScientificName,
+    "keep=" ++ lsS a.keepOnly]
+
+def distState (d : Distribute.DistOpts) (hasPat : Bool) : String :=
+  joinSp [
+    "pattern=" ++ (if hasPat then hexS (d.patPre ++ "%s" ++ d.patSuf) else "-"),
+    "classifier=" ++ hexS d.classifierTag, "directory=" ++ hexS d.directoryTag, "na-value=" ++ hexS d.naValue,
+    s!"batches={d.batchCount}", "append=0", s!"hash={d.hashSize}"]
+
+def pipeTok (w : String) : Bool :=
+  w = "long" || w = "nosd" || w.startsWith "bs=" || w.startsWith "w=" || w.startsWith "lay=" || w.startsWith "perm="
+
+/-- `argv grep|annot|dist <form> <tokens>`: the option globals after the real parser has read the
+argv spelling `form` of the specification -/
+def runArgv (ws : List String) : String :=
+  match ws with
+  | cmd :: form :: toks =>
+    if !(form = "0" || form = "1" || form = "2") then "bad-op"
+    else if cmd = "dist" then
+      if toks.any (fun w => w = "long" || w.startsWith "lay=" || w.startsWith "perm=") then "bad-op" else
+      match toks.foldlM parseDOpt {} with
+      | none => "bad-op"
+      | some o =>
+        let d := o.d
+        if !o.hasPat || (d.classifierTag = "" && d.batchCount = 0 && d.hashSize = 0) ||
+            (d.directoryTag ≠ "" && d.classifierTag = "") then "bad-op"
+        else distState d o.hasPat
+    else if cmd = "grep" || cmd = "annot" then
+      if toks.any pipeTok then "bad-op" else
+      match parseOpts toks with
+      | none => "bad-op"
+      | some o =>
+        if cmd = "grep" then (if o.hasAnnot then "bad-op" else grepState o)
+        else grepState o ++ " " ++ annotState o
+    else "bad-op"
+  | _ => "bad-op"
+
+def runDistIO (ws : List String) (recs : List (Rec × Option Rec)) : String :=
+  match ws.foldlM parseDOpt {} with
+  | none => "bad-op"
+  | some o =>
+    let d := o.d
+    if !o.hasPat || (d.classifierTag = "" && d.batchCount = 0 && d.hashSize = 0) ||
+        (d.directoryTag ≠ "" && d.classifierTag = "") then "bad-op"
+    else if !layPermOK o.bs o.lay o.perm recs.length then "bad-op"
+    else if recs.any (fun rm => rm.2.isSome || !idOK rm.1.id || !seqOK rm.1.seq) then "bad-op"
+    else if !(recs.map (·.1.id)).Nodup then "bad-op"
+    else
+      match Distribute.cliClassifier d with
+      | none => "bad-op"
+      | some c =>
+        let rs := recs.map (·.1)
+        -- class values that are not plain file names are not end-to-end cases
+        if (rs.zipIdx).any (fun ri =>
+            let kd := Distribute.classOf c ri.2 ri.1
+            !idOK kd.1 || (kd.2 ≠ "" && !idOK kd.2)) then "bad-op"
+        else
+          let files := (Distribute.distributeFiles d c rs).foldr insFile []
+          if files.isEmpty then "-"
+          else joinSp (files.map fun f => f.1 ++ "=" ++ showIds f.2)
 
 def both (f : Tab → String) (t : List (String × String)) : String :=
   let a := f ⟨t, false⟩
   let b := f ⟨t, true⟩
   if a = b then a else "oracle-miss"
+
+/-- the record-level operations take no pipeline token -/
+def plain (o : Opts) : Bool := o.nosd || o.lay.isSome || o.perm.isSome
 
 def run (line : String) : String :=
   match line.splitOn " | " with
@@ -281,7 +552,7 @@ def run (line : String) : String :=
     | "grep" :: ws, some rs =>
       match parseOpts ws with
       | some o =>
-        if o.hasAnnot || rs.any (fun rm => rm.2.isSome != o.paired) then "bad-op"
+        if o.hasAnnot || rs.any (fun rm => rm.2.isSome != o.paired) || plain o then "bad-op"
         else both (runGrep o rs) (parseTable tab)
       | none => "bad-op"
     | "grepio" :: ws, some rs =>
@@ -293,12 +564,20 @@ def run (line : String) : String :=
     | "annot" :: ws, some rs =>
       match parseOpts ws with
       | some o =>
-        if o.paired || o.pmSet || rs.any (fun rm => rm.2.isSome) then "bad-op"
+        if o.paired || o.pmSet || rs.any (fun rm => rm.2.isSome) || plain o then "bad-op"
         else both (runAnnot o rs) (parseTable tab)
+      | none => "bad-op"
+    | "annotio" :: ws, some rs =>
+      match parseOpts ws with
+      | some o =>
+        if o.paired || o.pmSet || o.nosd || rs.any (fun rm => rm.2.isSome) then "bad-op"
+        else both (runAnnotIO o rs) (parseTable tab)
       | none => "bad-op"
     | _, _ => "bad-op"
   | [head, recs] =>
     match words head, parseRecs recs with
+    | "argv" :: ws, _ => if recs = "-" then runArgv ws else "bad-op"
+    | "distio" :: ws, some rs => runDistIO ws rs
     | ["class", k1, k2, na], some rs =>
       match unhexS k1, unhexS k2, unhexS na with
       | some k1, some k2, some na =>
